@@ -77,8 +77,40 @@ Proof.
   - destruct (N.eqb w x); auto.
 Qed.
 
+Lemma find_del_same : forall v m, find_vid v (del_vid v m) = None.
+Proof.
+  intros v m. unfold del_vid. induction m as [|[x sx] m IH]; simpl; auto.
+  destruct (N.eqb_spec v x) as [E|E]; simpl; auto.
+  destruct (N.eqb_spec v x); [contradiction|auto].
+Qed.
+
+Lemma find_del_other : forall v w m, v <> w -> find_vid w (del_vid v m) = find_vid w m.
+Proof.
+  intros v w m H. unfold del_vid. induction m as [|[x sx] m IH]; simpl; auto.
+  destruct (N.eqb_spec v x) as [E1|E1]; simpl.
+  - subst x. destruct (N.eqb_spec w v); [congruence|auto].
+  - destruct (N.eqb w x); auto.
+Qed.
+
+Lemma r_find_remove_same : forall v r, r_find v (r_remove v r) = None.
+Proof.
+  intros v r. unfold r_remove. induction r as [|[x lx] r IH]; simpl; auto.
+  destruct (N.eqb_spec v x) as [E|E]; simpl; auto.
+  destruct (N.eqb_spec v x); [contradiction|auto].
+Qed.
+
+Lemma r_find_remove_other : forall v w r, v <> w -> r_find w (r_remove v r) = r_find w r.
+Proof.
+  intros v w r H. unfold r_remove. induction r as [|[x lx] r IH]; simpl; auto.
+  destruct (N.eqb_spec v x) as [E1|E1]; simpl.
+  - subst x. destruct (N.eqb_spec w v); [congruence|auto].
+  - destruct (N.eqb w x); auto.
+Qed.
+
 Arguments put_vid : simpl never.
+Arguments del_vid : simpl never.
 Arguments r_put : simpl never.
+Arguments r_remove : simpl never.
 Arguments grow : simpl never.
 
 (* ---------- well-formed maps ---------- *)
@@ -134,19 +166,26 @@ Proof.
   - apply AddFresh; auto.
 Qed.
 
+Definition del_last (m : vmap) (v : N) : vmap :=
+  {| heap := heap m; v2l := del_vid v (v2l m); data_center := data_center m |}.
+
 Inductive del_case (m : vmap) (v : N) (l : loc) : vmap -> Prop :=
 | DelNoVid : find_vid v (v2l m) = None -> del_case m v l m
 | DelNoUrl : forall s, find_vid v (v2l m) = Some s ->
     index_of_url (url l) (cells (heap m) s) = None -> del_case m v l m
+| DelLast : forall s i, find_vid v (v2l m) = Some s ->
+    index_of_url (url l) (cells (heap m) s) = Some i -> s_len s = 1 -> del_case m v l (del_last m v)
 | DelAt : forall s i, find_vid v (v2l m) = Some s ->
-    index_of_url (url l) (cells (heap m) s) = Some i -> del_case m v l (del_at m v s i).
+    index_of_url (url l) (cells (heap m) s) = Some i -> s_len s <> 1 -> del_case m v l (del_at m v s i).
 
 Lemma del_cases : forall m v l, del_case m v l (delete_location m v l).
 Proof.
   intros m v l. unfold delete_location.
   destruct (find_vid v (v2l m)) as [s|] eqn:F.
   - destruct (index_of_url (url l) (cells (heap m) s)) as [i|] eqn:I.
-    + apply DelAt; auto.
+    + destruct (Nat.eqb_spec (s_len s) 1) as [E|E].
+      * eapply DelLast; eauto.
+      * apply DelAt; auto.
     + eapply DelNoUrl; eauto.
   - apply DelNoVid; auto.
 Qed.
@@ -239,9 +278,22 @@ Proof.
         -- subst x. rewrite find_put_same in Fx. inversion Fx; subst; cbn. lia.
         -- rewrite find_put_other in Fx by auto. eauto.
   - (* delete *)
-    destruct (del_cases m w l) as [F|s F I|s i F I].
+    destruct (del_cases m w l) as [F|s F I|s i F I L1|s i F I L1].
     + split; auto. split; auto.
     + split; auto. split; auto.
+    + (* the entry goes: the heap is untouched, the array is owned by nobody *)
+      unfold held, del_last; cbn. split; [reflexivity|]. split; auto.
+      destruct Hown as [[s' [Fv [Es Hl]]]|Hno].
+      * destruct (N.eq_dec w v) as [E|E].
+        -- subst w. rewrite F in Fv. inversion Fv; subst s'.
+           right. intros x sx Fx. destruct (N.eq_dec v x) as [E|E].
+           ++ subst x. rewrite find_del_same in Fx. discriminate.
+           ++ rewrite find_del_other in Fx by auto. intro Hc. apply E.
+              eapply W2; eauto. congruence.
+        -- left. exists s'. rewrite find_del_other by auto. auto.
+      * right. intros x sx Fx. destruct (N.eq_dec w x) as [E|E].
+        -- subst x. rewrite find_del_same in Fx. discriminate.
+        -- rewrite find_del_other in Fx by auto. eauto.
     + (* fresh array, like a growing append *)
       unfold held, del_at; cbn. unfold cells at 1; cbn. rewrite nth_alloc_old by auto.
       split; [reflexivity|].
@@ -314,7 +366,15 @@ Proof.
         -- subst y. rewrite find_put_same in Fy. rewrite find_put_other in Fx by auto.
            inversion Fy; subst s2. cbn in Ea. destruct (W1 x s1 Fx). lia.
         -- rewrite find_put_other in Fx, Fy by auto. eauto.
-  - destruct (del_cases m w l) as [F|s F I|s i F I]; auto.
+  - destruct (del_cases m w l) as [F|s F I|s i F I L1|s i F I L1]; auto.
+    { split; cbn.
+      - intros x sx Fx. destruct (N.eq_dec w x) as [E|E].
+        + subst x. rewrite find_del_same in Fx. discriminate.
+        + rewrite find_del_other in Fx by auto. eauto.
+      - intros x y s1 s2 Fx Fy Ea.
+        destruct (N.eq_dec w x) as [E1|E1]; [subst x; rewrite find_del_same in Fx; discriminate|].
+        destruct (N.eq_dec w y) as [E2|E2]; [subst y; rewrite find_del_same in Fy; discriminate|].
+        rewrite find_del_other in Fx, Fy by auto. eauto. }
     pose proof (index_of_url_spec (url l) (cells (heap m) s)) as Sp. rewrite I in Sp.
     destruct Sp as [Hi _]. destruct (W1 w s F) as [Hs1 [Hs2 Hs3]].
     pose proof (cut_length i _ Hi) as Lc.
@@ -345,7 +405,7 @@ Proof.
   assert (Fv : find_vid v (v2l (apply m e)) = find_vid v (v2l m)).
   { destruct He; subst e; cbn.
     - destruct (add_cases m w l); cbn; auto using find_put_other.
-    - destruct (del_cases m w l); cbn; auto using find_put_other. }
+    - destruct (del_cases m w l); cbn; auto using find_put_other, find_del_other. }
   rewrite Fv. destruct (find_vid v (v2l m)) as [s|] eqn:F; cbn; auto.
   f_equal. apply (apply_frame m e v s); auto using held_current.
 Qed.
@@ -377,17 +437,28 @@ Proof.
     destruct (N.eq_dec w v) as [E|E].
     2:{ rewrite (view_other m _ v w l) by auto. rewrite V. cbn. unfold r_del.
         destruct (r_find w r) as [ls|]; [destruct (has_url (url l) ls)|]; auto.
-        symmetry; auto using r_find_put_other. }
+        destruct (remove_url (url l) ls); symmetry; auto using r_find_put_other, r_find_remove_other. }
     subst w. cbn. unfold r_del. rewrite <- (V v). unfold view, get_locations.
-    destruct (del_cases m v l) as [F|s F I|s i F I]; rewrite F; cbn.
+    destruct (del_cases m v l) as [F|s F I|s i F I L1|s i F I L1]; rewrite F; cbn.
     + rewrite <- V. unfold view, get_locations. rewrite F. reflexivity.
     + pose proof (index_of_url_spec (url l) (cells (heap m) s)) as Sp. rewrite I in Sp.
       destruct Sp as [Hu _]. rewrite Hu. rewrite <- V. unfold view, get_locations. rewrite F. reflexivity.
     + pose proof (index_of_url_spec (url l) (cells (heap m) s)) as Sp. rewrite I in Sp.
-      destruct Sp as [Hi [Hu Hr]]. rewrite Hu, find_put_same, r_find_put_same. cbn. f_equal.
+      destruct Sp as [Hi [Hu Hr]]. rewrite Hu, find_del_same. cbn.
+      pose proof (cut_length i _ Hi) as Lc.
+      rewrite cells_length in Lc by (apply (W1 v s F)). unfold cut in Lc. rewrite <- Hr in Lc.
+      destruct (remove_url (url l) (cells (heap m) s)) as [|x xs]; [|cbn in Lc; lia].
+      rewrite r_find_remove_same. reflexivity.
+    + pose proof (index_of_url_spec (url l) (cells (heap m) s)) as Sp. rewrite I in Sp.
+      destruct Sp as [Hi [Hu Hr]]. rewrite Hu, find_put_same.
       pose proof (cut_length i _ Hi) as Lc.
       rewrite cells_length in Lc by (apply (W1 v s F)).
-      rewrite Hr. unfold cells at 1. cbn [s_arr s_len]. rewrite nth_alloc_new.
+      pose proof Hi as Hi'. rewrite cells_length in Hi' by (apply (W1 v s F)).
+      assert (Hne : remove_url (url l) (cells (heap m) s) <> []).
+      { rewrite Hr. fold (cut i (cells (heap m) s)). intro Hc. rewrite Hc in Lc. cbn in Lc. lia. }
+      destruct (remove_url (url l) (cells (heap m) s)) as [|x xs] eqn:Hrm; [congruence|].
+      rewrite r_find_put_same. cbn. f_equal. rewrite Hr.
+      unfold cells at 1. cbn [s_arr s_len]. rewrite nth_alloc_new.
       apply firstn_all2. unfold cut in Lc. lia.
   - reflexivity.
 Qed.
@@ -548,9 +619,13 @@ Proof.
       * rewrite r_find_put_other in Fv by auto. eauto.
   - unfold r_del. destruct (r_find w r) as [ls|] eqn:F; auto.
     destruct (has_url (url l) ls) eqn:D; auto.
+    destruct (remove_url (url l) ls) as [|x xs] eqn:Hrm.
+    { intros v ls' Fv. destruct (N.eq_dec w v) as [E|E].
+      - subst v. rewrite r_find_remove_same in Fv. discriminate.
+      - rewrite r_find_remove_other in Fv by auto. eauto. }
     intros v ls' Fv. destruct (N.eq_dec w v) as [E|E].
     + subst v. rewrite r_find_put_same in Fv. inversion Fv; subst.
-      apply remove_url_nodup. eauto.
+      rewrite <- Hrm. apply remove_url_nodup. eauto.
     + rewrite r_find_put_other in Fv by auto. eauto.
   - intros v ls Fv. discriminate.
 Qed.
@@ -580,13 +655,16 @@ Proof.
   - unfold r_del. destruct (N.eqb_spec v w) as [E|E]; simpl.
     + subst w. destruct (r_find v r) as [ls|] eqn:F.
       * destruct (has_url (url l) ls) eqn:D.
-        -- rewrite r_find_put_same. rewrite find_url_remove by eauto.
-           reflexivity.
+        -- pose proof (find_url_remove u (url l) ls (Hok v ls F)) as Hfr.
+           destruct (remove_url (url l) ls) as [|x xs] eqn:Hrm.
+           ++ rewrite r_find_remove_same. exact Hfr.
+           ++ rewrite r_find_put_same. exact Hfr.
         -- rewrite F. destruct (String.eqb (url l) u) eqn:E2; auto.
            apply String.eqb_eq in E2. subst u. apply find_url_none. auto.
       * rewrite F. destruct (String.eqb (url l) u); reflexivity.
-    + destruct (r_find w r) as [ls|]; [destruct (has_url (url l) ls)|]; auto;
-        rewrite r_find_put_other by auto; reflexivity.
+    + destruct (r_find w r) as [ls|]; [destruct (has_url (url l) ls)|]; auto.
+      destruct (remove_url (url l) ls);
+        [rewrite r_find_remove_other by auto|rewrite r_find_put_other by auto]; reflexivity.
   - reflexivity.
 Qed.
 
@@ -713,4 +791,173 @@ Proof. intros. unfold events. apply flat_map_app. Qed.
 Lemma leader_hint_ignored : forall g, m_leader g <> "" -> events_of_op (Msg g) = [].
 Proof.
   intros g H. simpl. destruct (String.eqb_spec (m_leader g) ""); [contradiction|reflexivity].
+Qed.
+
+(* ---------- not-found: exactly when no location is currently added ---------- *)
+Definition r_nonempty (r : rmap) : Prop := forall v ls, r_find v r = Some ls -> ls <> [].
+
+Lemma r_apply_nonempty : forall r e, r_nonempty r -> r_nonempty (r_apply r e).
+Proof.
+  intros r e H. destruct e as [w l|w l|]; simpl.
+  - unfold r_add. destruct (r_find w r) as [ls|] eqn:F.
+    + destruct (has_url (url l) ls); auto.
+      intros v ls' Fv. destruct (N.eq_dec w v) as [E|E].
+      * subst v. rewrite r_find_put_same in Fv. inversion Fv; subst.
+        intro Hc. apply app_eq_nil in Hc. destruct Hc; discriminate.
+      * rewrite r_find_put_other in Fv by auto. eauto.
+    + intros v ls' Fv. destruct (N.eq_dec w v) as [E|E].
+      * subst v. rewrite r_find_put_same in Fv. inversion Fv; subst. discriminate.
+      * rewrite r_find_put_other in Fv by auto. eauto.
+  - unfold r_del. destruct (r_find w r) as [ls|] eqn:F; auto.
+    destruct (has_url (url l) ls); auto.
+    destruct (remove_url (url l) ls) as [|x xs] eqn:Hrm.
+    + intros v ls' Fv. destruct (N.eq_dec w v) as [E|E].
+      * subst v. rewrite r_find_remove_same in Fv. discriminate.
+      * rewrite r_find_remove_other in Fv by auto. eauto.
+    + intros v ls' Fv. destruct (N.eq_dec w v) as [E|E].
+      * subst v. rewrite r_find_put_same in Fv. inversion Fv; subst. discriminate.
+      * rewrite r_find_put_other in Fv by auto. eauto.
+  - intros v ls Fv. discriminate.
+Qed.
+
+Lemma r_run_nonempty : forall evs r, r_nonempty r -> r_nonempty (r_run r evs).
+Proof. induction evs as [|e evs IH]; intros r H; simpl; auto using r_apply_nonempty. Qed.
+
+Lemma r_nonempty_nil : r_nonempty [].
+Proof. intros v ls H. discriminate. Qed.
+
+(* the cache never holds "found, no locations" *)
+Theorem view_nonempty : forall d evs v ls, view (run (init d) evs) v = Some ls -> ls <> [].
+Proof.
+  intros d evs v ls H. rewrite view_is_reference in H.
+  exact (r_run_nonempty evs [] r_nonempty_nil v ls H).
+Qed.
+
+(* the "or not-found" clause: a lookup answers not-found exactly when NO location
+   of the volume is currently added (never added, all removed, or dropped by a
+   lost connection) *)
+Theorem not_found_iff : forall d evs v,
+  lookup_locs (run (init d) evs) v = Err ErrNotFound <-> forall u, live v u evs = None.
+Proof.
+  intros d evs v. pose proof (locations_exact d evs v) as [_ HL]. cbn zeta in HL.
+  pose proof (view_nonempty d evs v) as HN.
+  unfold lookup_locs, view_list in *.
+  destruct (view (run (init d) evs) v) as [ls|] eqn:Vw.
+  - split; [discriminate|]. intro Hall. exfalso.
+    destruct ls as [|l ls]; [apply (HN []); reflexivity|].
+    specialize (HL (url l)). rewrite Hall in HL. unfold find_url in HL. simpl in HL.
+    rewrite String.eqb_refl in HL. discriminate.
+  - split; auto. intros _ u. rewrite <- HL. reflexivity.
+Qed.
+
+(* "same data center first" and "never empty", composed on the cache's own lookup *)
+Theorem lookup_same_dc_first : forall d evs v ls, lookup_locs (run (init d) evs) v = Ok ls ->
+  exists a b, ls = a ++ b /\ forallb (same_dc d) a = true /\
+              forallb (fun l => negb (same_dc d l)) b = true /\
+              Permutation ls (view_list (run (init d) evs) v) /\ ls <> [].
+Proof.
+  intros d evs v ls H. rewrite sequential_exact in H.
+  destruct (same_dc_first d _ v ls H) as [a [b [E [Ha [Hb P]]]]].
+  assert (RV : r_list (r_run [] evs) v = view_list (run (init d) evs) v).
+  { unfold r_list, view_list. rewrite view_is_reference. reflexivity. }
+  exists a, b. repeat split; auto.
+  - rewrite <- RV. exact P.
+  - intro Hc. subst ls. rewrite Hc in P. apply Permutation_nil in P.
+    unfold r_lookup, r_list in *. destruct (r_find v (r_run [] evs)) as [l0|] eqn:F; [|discriminate].
+    subst l0. exact (r_run_nonempty evs [] r_nonempty_nil v [] F eq_refl).
+Qed.
+
+(* ---------- a lookup that is not atomic ---------- *)
+Lemma nth_firstn_lt : forall {A} n i (l : list A) d, i < n -> nth i (firstn n l) d = nth i l d.
+Proof.
+  induction n as [|n IH]; intros i l d H; [lia|].
+  destruct l as [|x l]; destruct i as [|i]; simpl; auto. apply IH. lia.
+Qed.
+
+Lemma map_nth_seq : forall {A} (l : list A) d, map (fun i => nth i l d) (seq 0 (length l)) = l.
+Proof.
+  induction l as [|x l IH]; intro d; simpl; auto. f_equal.
+  rewrite <- seq_shift, map_map. exact (IH d).
+Qed.
+
+(* LookupVolumeServerUrl takes the slice under the read lock (after evs1), then
+   reads cell i after any further updates [t i] and the data center after any
+   further updates [t']: the answer is the atomic lookup's answer of the moment the
+   lock was held *)
+Theorem concurrent_lookup : forall d evs1 (t : nat -> list ev) t' v,
+  lookup_locs_conc (run (init d) evs1) (fun i => run (init d) (evs1 ++ t i))
+                   (run (init d) (evs1 ++ t')) v
+  = lookup_locs (run (init d) evs1) v.
+Proof.
+  intros d evs1 t t' v. unfold lookup_locs_conc, lookup_locs, view.
+  destruct (get_locations (run (init d) evs1) v) as [hd|] eqn:G; cbn [option_map]; auto.
+  rewrite !data_center_kept. f_equal. f_equal.
+  pose proof (run_sim evs1 _ _ (init_sim d)) as [[W1 _] _].
+  pose proof (cells_length _ _ (W1 v hd G)) as L.
+  unfold read_cells.
+  transitivity (map (fun i => nth i (cells (heap (run (init d) evs1)) hd) zero_loc) (seq 0 (s_len hd))).
+  - apply map_ext_in. intros i Hi. apply in_seq in Hi.
+    rewrite <- (snapshot_stable d evs1 (t i) v hd G). unfold cells.
+    rewrite nth_firstn_lt by lia. reflexivity.
+  - set (c := cells (heap (run (init d) evs1)) hd) in *. rewrite <- L. apply map_nth_seq.
+Qed.
+
+(* ---------- the window checker of the concurrent harness ---------- *)
+Lemma in_window_spec : forall p n lo,
+  in_window p lo n = true <-> exists j, lo <= j < lo + n /\ p j = true.
+Proof.
+  induction n as [|n IH]; intros lo; simpl.
+  - split; [discriminate|]. intros [j [H _]]. lia.
+  - destruct (p lo) eqn:P.
+    + split; auto. intros _. exists lo. split; [lia|auto].
+    + rewrite IH. split; intros [j [H1 H2]].
+      * exists j. split; [lia|auto].
+      * exists j. split; auto. destruct (Nat.eq_dec j lo); [subst; congruence|lia].
+Qed.
+
+(* [window_ok p lo hi] decides "some update index j with lo <= j <= hi explains the answer" *)
+Theorem window_ok_spec : forall p lo hi,
+  window_ok p lo hi = true <-> exists j, lo <= j <= hi /\ p j = true.
+Proof.
+  intros. unfold window_ok. rewrite in_window_spec.
+  split; intros [j [H1 H2]]; exists j; split; auto; lia.
+Qed.
+
+(* what a reader gets that takes the read lock after j of the updates: exactly the
+   locations currently added at that index *)
+Theorem concurrent_get_exact : forall d evs j v,
+  let ls := view_list (run (init d) (firstn j evs)) v in
+  view (run (init d) (firstn j evs)) v = r_find v (r_run [] (firstn j evs)) /\
+  NoDup (map url ls) /\ (forall u, find_url u ls = live v u (firstn j evs)) /\
+  (view (run (init d) (firstn j evs)) v = None <-> forall u, live v u (firstn j evs) = None).
+Proof.
+  intros d evs j v ls. subst ls. split; [apply view_is_reference|].
+  destruct (locations_exact d (firstn j evs) v) as [H1 H2]. split; [exact H1|]. split; [exact H2|].
+  rewrite <- not_found_iff with (d := d). unfold lookup_locs.
+  destruct (view (run (init d) (firstn j evs)) v); split; intro H; try discriminate; auto.
+Qed.
+
+(* ---------- examples ---------- *)
+Definition last_gone : list ev := [EvAdd 1%N locA; EvDel 1%N locA].
+
+Lemma example_witnesses :
+  (* a slice held across a delete still shows what it showed *)
+  (exists hd, get_locations (run (init dcA) alias_before) 1%N = Some hd /\
+     map url (cells (heap (run (init dcA) (alias_before ++ alias_after))) hd) = ["u1"; "u2"; "u3"]) /\
+  map url (view_list (run (init dcA) (alias_before ++ alias_after)) 1%N) = ["u2"; "u3"] /\
+  (* own data center first after a reconnect *)
+  lookup_locs (run (init dcA) reconnect_witness) 1%N = Ok [locA; locB] /\
+  (* an id string that is no uint32 is rejected *)
+  lookup_volume_server_url (run (init dcA) [EvAdd 1%N locA]) "4294967297" = Err ErrParse /\
+  lookup_volume_server_url (run (init dcA) [EvAdd 1%N locA]) "1" = Ok ["u1"] /\
+  (* the last location removed: not-found, not "found, empty" *)
+  lookup_locs (run (init dcA) last_gone) 1%N = Err ErrNotFound /\
+  get_locations (run (init dcA) last_gone) 1%N = None /\
+  (* and a held slice still shows it *)
+  (exists hd, get_locations (run (init dcA) [EvAdd 1%N locA]) 1%N = Some hd /\
+     map url (cells (heap (run (init dcA) (last_gone ++ [EvReset; EvAdd 1%N locB]))) hd) = ["u1"]) /\
+  (* the window checker: an answer explained by index 2 only *)
+  window_ok (fun j => Nat.eqb j 2) 1 3 = true /\ window_ok (fun j => Nat.eqb j 2) 3 5 = false.
+Proof.
+  vm_compute. repeat split; try reflexivity; eexists; split; reflexivity.
 Qed.
